@@ -395,6 +395,10 @@ impl Tally {
 }
 
 pub fn run_worker<P: Prop>(tier: Tier, seed: u64, index: usize, workers: usize, out: &Path) -> i32 {
+    // a worker must not outlive the run that started it (a killed parent would otherwise leave 16 busy orphans behind)
+    unsafe {
+        libc::prctl(libc::PR_SET_PDEATHSIG, libc::SIGKILL);
+    }
     install_panic_hook();
     let started = Instant::now();
     let mut ctx = Ctx::new(tier);
